@@ -413,7 +413,10 @@ EXTRA_TEXT = {
          "first use as an ordinary definition, so the program P' = definitions of builtin.jq in front of P is inside the fragment; on "
          "every run the harness checks that its transcription compiles to the same instruction list as the definitions parsed from "
          "/repo/builtin.jq, and the implementation's outputs on P itself are judged against the denotation of P' (map select not "
-         "recurse .. while until first last isempty all any nth limit skip combinations to_entries ...). `?//` is documented as needing a generalisation of the generator predicate (its fork intercepts "
+         "recurse .. while until first last isempty all any nth limit skip combinations to_entries ...). props/C01link2.v: the END-TO-END "
+         "link for c01vm2 - the frame VM on the FINAL compiled code equals Sem.observe (outputs in order and ending) for the "
+         "function-free part of F3 (objects, destructuring, computed index/slices, interpolation, operators with arbitrary operands), "
+         "whenever Sem gives a verdict; functions are not linked yet (Sem's tick budget is not part of the state invariant). `?//` is documented as needing a generalisation of the generator predicate (its fork intercepts "
          "errors raised downstream of the whole expression)."),
  "C03": (" THIRD WAVE: 75 natives are now PROVED against Spec.v on all well-formed inputs (C03_meets_doc_listed: one statement "
          "quantifying over the explicit list), incl. bsearch (what sort.Search computes on any array; insertion point on partitioned "
@@ -471,6 +474,13 @@ EXTRA_TEXT = {
          "the observation of the optimisation-free denotation). New generator block computednav (navigation from computed values in "
          "path / update / delete contexts: the order of the type check and the path-integrity check must not depend on whether the "
          "index is compiled as opindex or as a call)."),
+ "C17": (" LATER (session 6): the two lone-CR window findings are REPAIRED (repo d5617da: countNewlines counts LF, CRLF once and a lone "
+         "CR in the dropped bytes, and a trailing CR is not dropped so that CRLF is never split) and the window theorems hold WITHOUT "
+         "the crlf_only hypothesis: C17_seekable_window_correct / _full_holds and C17_pipe_window_correct / _exact for every file "
+         "size, offset, chunking and every mix of LF / CRLF / CR (terms_before is additive over any split; keep_cr_ok: the position "
+         "after the guard never splits a pair); the old counting is kept behind a model flag with regression Examples (line 42 / 164 "
+         "instead of 201) and a harness probe selects the instance the tree under test uses; stream crwin (terminators exactly at "
+         "chunk and window boundaries, split CRLF, CR CR LF, both transports, short reads). 18 theorems."),
  "C16": (" Long raw line oracle in every tier: -R / -Rs / -nR with lines of 4095..1 MiB bytes around every buffer size (4 KiB, 16 KiB "
          "window, 64 KiB scanner limit), each followed by further lines."),
  "C19": (" The native-vs-definition stream includes a native that returns its argument slice itself (a retained slice must not see "
@@ -489,6 +499,8 @@ NOTE_REPLACE = {
  "C12": [(" -r/-j/--raw-output0 are modelled and compared, without a theorem.", " The raw modes are theorems of props/C12.v and C12c.v.")],
  "C13": [("Closed under the global context (no axioms). jq-defined pairs are proved over Gallina transcriptions of the builtin.jq text, tied by correspondence.",
           "props/C13.v and C13b.v: closed under the global context. props/C13c.v (over coq/sem): the Reals axioms Flocq's binary64 brings in (sig_not_dec, sig_forall_dec, functional_extensionality_dep, classic). The entries pairs are proved BOTH over Gallina transcriptions (tied by correspondence and text hashes) and over the evaluator applied to the regenerated builtin.jq (C13c); the stream / paths pairs only over the transcriptions unless docs/C13.md says otherwise.")],
+ "C17": [("Three known findings: lone-CR terminators before the window (2), --stream offsets from dec.Token().",
+          "One known finding: --stream offsets from dec.Token() (the two lone-CR window findings were repaired by repo commit d5617da).")],
  "C15": [("Flag parsing is not part of this model (C08 models parseFlags);", "Flag parsing is C08's model, composed with this one in props/C15b.v (cli_main); --stream / --yaml-input decoders are not replicated by the argv stream (such vectors run with -n or are skipped and counted);")],
 }
 for _p, _t in EXTRA_TEXT.items():
